@@ -2,4 +2,26 @@
 open Model
 open Conv
 
-let step (cfg : cl_cfg) (s : cl_state) (ev : cl_event) (iouts : (int * string) list) : (string * string) list = []
+let res_of (r : string) : cres =
+  match r with
+  | "ok" -> ROk | "err:timeout" -> RTimeout | "err:noretries" -> RNoRetries | "err:rejected" -> RRejected
+  | "err:notregistered" -> RNotRegistered | "err:state" -> RState | "err:invalid" -> RInvalid
+  | "err:cancelled" -> RCancelled | _ -> ROther
+
+let out_of (t : int) (text : string) : cl_out list =
+  let nt = n_of_int t in
+  match split_on ' ' text with
+  | ["SN"; hx] -> [CoSn (nt, bytes_of_hex hx)]
+  | ["RET"; id; r] -> (try [CoRet (nt, n_of_int (int_of_string id), res_of r)] with _ -> [])
+  | "CB" :: sub :: topic :: payload :: rest ->
+    let tbl = Gw_io.kv_tbl rest in
+    let g k = int_of_string (Hashtbl.find tbl k) in
+    (try [CoCb (nt, n_of_int (int_of_string sub), bytes_of_hex topic, bytes_of_hex payload, n_of_int (g "qos"),
+                g "retain" <> 0, g "dup" <> 0, n_of_int (g "mid"))] with _ -> [])
+  | ["EXIT"] -> [CoExit nt]
+  | _ -> []
+
+let step (cfg : cl_cfg) (s : cl_state) (ev : cl_event) (iouts : (int * string) list) : (string * string) list =
+  let os = List.concat_map (fun (t, x) -> out_of t x) iouts in
+  let tag p l = List.map (fun c -> (p, "clause" ^ string_of_int (int_of_n c))) l in
+  tag "C23" (chk_C23c os) @ tag "C27" (chk_C27 cfg s ev os) @ tag "C17" (chk_C17 cfg s ev os) @ tag "C31" (chk_C31c cfg os)
